@@ -27,9 +27,9 @@ REQUIRED = ["op.add", "op.add-list", "op.add-network", "op.remove_obstacle", "op
             "op.remove_traffic_light-list", "op.remove_intersection", "op.remove_intersection-list",
             "op.replace_lanelet_network", "op.erase_lanelet_network", "op.generate_object_id", "collision-predicted",
             "re-add-after-removal", "hooked-state-checked", "nonpositive-ids", "op.remove-stale.lanelet",
-            "op.remove-stale.sign", "op.remove-stale.intersection"]
-EXHAUSTIVE = {"quick": "all operation sequences of length <= 2 over the fixed 21-operation alphabet",
-              "thorough": "all operation sequences of length <= 4 over the fixed 21-operation alphabet"}
+            "op.remove-stale.sign", "op.remove-stale.intersection", "network-with-duplicate-ids"]
+EXHAUSTIVE = {"quick": "all operation sequences of length <= 2 over the fixed 22-operation alphabet",
+              "thorough": "all operation sequences of length <= 4 over the fixed 22-operation alphabet"}
 ASSUMPTIONS = ["atomicity of list adds beyond the failing element is not demanded (elements before it stay added)",
                "a network is added with add_objects only while the scenario's network is empty; "
                "replace_lanelet_network is only issued with networks that do not collide with contained obstacles"]
@@ -110,6 +110,11 @@ class Universe:
             "N1": [("lanelet", 1, ("L", [5], [6])), ("lanelet", 2, ("L", [5], [])), ("sign", 5, None), ("light", 6, None),
                    ("intersection", 8, [9])],
             "N2": [("lanelet", 2, ("L", [6], [4])), ("lanelet", 3, ("L", [], [4])), ("sign", 6, None), ("light", 4, None)],
+            # networks that are inconsistent in themselves (the network classes do not check ids): two intersections
+            # sharing an incoming id / an incoming id equal to a lanelet id. Adding them to a scenario is rejected.
+            "N3": [("lanelet", 1, ("L", [], [])), ("lanelet", 2, ("L", [], [])), ("intersection", 8, [9, 10]),
+                   ("intersection", 12, [10])],
+            "N4": [("lanelet", 1, ("L", [], [])), ("lanelet", 2, ("L", [], [])), ("intersection", 8, [2])],
         }
         self._lanelet, self._sign, self._light, self._inter = lanelet, sign, light, inter
         self.LaneletNetwork = LaneletNetwork
@@ -158,7 +163,7 @@ class Model:
 
 FIXED_ALPHABET = [
     ("add", "L1"), ("add", "Os1"), ("add", "S3"), ("add", "Op3"), ("add", "I8"), ("add", "Od8"), ("add", "I9"),
-    ("add-list", ("L2", "Oe2")), ("add-network", "N1"), ("remove", "L1"), ("remove", "Os1"), ("remove-list", ("I8",)),
+    ("add-list", ("L2", "Oe2")), ("add-network", "N1"), ("add-network", "N3"), ("remove", "L1"), ("remove", "Os1"), ("remove-list", ("I8",)),
     ("remove", "I8"), ("remove", "S3"), ("replace", "N2"), ("erase", None), ("gen", None), ("remove-stale", "Os1"),
     ("remove-stale", "L1"), ("remove-stale", "S3"), ("remove-stale", "I8"),
 ]
@@ -269,7 +274,10 @@ def run(ctx):
                         continue
                     ctx.feature("op.add-network")
                     nid = U.net_ids(arg)
-                    exp_exc = any(i in m.ids for _, i in nid)
+                    all_ids = [i for _, i in nid]
+                    exp_exc = any(i in m.ids for _, i in nid) or len(set(all_ids)) != len(all_ids)
+                    if len(set(all_ids)) != len(all_ids):
+                        ctx.feature("network-with-duplicate-ids")
                     net = U.make_net(arg)
                     try:
                         sc.add_objects(net)
@@ -493,7 +501,7 @@ def run(ctx):
             elif c < 0.40:
                 hist.append(("add-list", tuple(rng.sample(keys, rng.randint(1, 3)))))
             elif c < 0.44:
-                hist.append(("add-network", rng.choice(["N1", "N2"])))
+                hist.append(("add-network", rng.choice(["N1", "N2", "N3", "N4"])))
             elif c < 0.64:
                 pool = contained_guess + ["lanelet:1", "lanelet:2", "lanelet:3", "sign:5", "sign:3", "light:6", "light:4",
                                           "intersection:8"]
